@@ -680,14 +680,24 @@ func (ex *Exec) unsafeLoad(T types.Type, p UPtr) Value {
 	if p.base == nil {
 		ex.rtPanic("invalid memory address or nil pointer dereference")
 	}
+	base := p.base
 	if p.idx < 0 || p.idx+n > len(p.base) {
-		ex.fail("unsafe", "unsafe access outside the slice", fmt.Sprintf("%d-byte load at offset %d of a %d-byte slice", n, p.idx, len(p.base)))
+		detail := fmt.Sprintf("%d-byte load at offset %d of a %d-byte slice", n, p.idx, len(p.base))
+		if p.idx < 0 || p.idx+n > cap(p.base) {
+			ex.fail("unsafe", "unsafe access outside the slice", detail)
+		}
+		// inside the backing array: carry on so that an observable effect can be
+		// reported (and replayed natively) first; reported at path end otherwise
+		if ex.pendingUnsafe == "" {
+			ex.pendingUnsafe = detail
+		}
+		base = p.base[:cap(p.base)]
 	}
 	bk := intKind{8, false}
 	// little-endian
-	res := ex.intTerm(p.base[p.idx+n-1], bk)
+	res := ex.intTerm(base[p.idx+n-1], bk)
 	for i := n - 2; i >= 0; i-- {
-		res = ex.tc.Concat(res, ex.intTerm(p.base[p.idx+i], bk))
+		res = ex.tc.Concat(res, ex.intTerm(base[p.idx+i], bk))
 	}
 	return ex.intVal(res, k)
 }
@@ -701,13 +711,21 @@ func (ex *Exec) unsafeStore(T types.Type, p UPtr, v Value) {
 	if p.base == nil {
 		ex.rtPanic("invalid memory address or nil pointer dereference")
 	}
+	base := p.base
 	if p.idx < 0 || p.idx+n > len(p.base) {
-		ex.fail("unsafe", "unsafe access outside the slice", fmt.Sprintf("%d-byte store at offset %d of a %d-byte slice", n, p.idx, len(p.base)))
+		detail := fmt.Sprintf("%d-byte store at offset %d of a %d-byte slice", n, p.idx, len(p.base))
+		if p.idx < 0 || p.idx+n > cap(p.base) {
+			ex.fail("unsafe", "unsafe access outside the slice", detail)
+		}
+		if ex.pendingUnsafe == "" {
+			ex.pendingUnsafe = detail
+		}
+		base = p.base[:cap(p.base)]
 	}
 	t := ex.intTerm(v, k)
 	bk := intKind{8, false}
 	for i := 0; i < n; i++ {
-		p.base[p.idx+i] = ex.intVal(ex.tc.Extract(t, 8*i+7, 8*i), bk)
+		base[p.idx+i] = ex.intVal(ex.tc.Extract(t, 8*i+7, 8*i), bk)
 	}
 }
 
